@@ -24,16 +24,25 @@ def main():
     ap.add_argument("--seeds", default="0")
     ap.add_argument("--n", type=int, default=None)
     ap.add_argument("--reverse", action="store_true", help="the diff is a fix commit: apply it in reverse")
+    ap.add_argument("--scratch", action="store_true", help="apply the change to a scratch worktree (VERIF_REPO) instead of /repo")
     a = ap.parse_args()
     d = os.path.join(VERIF, "seeded", a.id)
     meta = json.load(open(os.path.join(d, "meta.json")))
     checks = (a.checks or ",".join(meta.get("checks", [meta["property"]]))).split(",")
-    dirty = sh("git -C %s status --porcelain --untracked-files=no" % REPO).stdout.strip()
+    target = REPO
+    if a.scratch:
+        target = "/tmp/repo_scratch_%s" % a.id
+        sh("git -C %s worktree remove --force %s" % (REPO, target))
+        r = sh("git -C %s worktree add --detach %s HEAD" % (REPO, target))
+        if r.returncode != 0:
+            print("cannot create scratch worktree:", r.stderr)
+            return 2
+    dirty = sh("git -C %s status --porcelain --untracked-files=no" % target).stdout.strip()
     if dirty:
-        print("refusing: /repo has uncommitted changes:\n" + dirty)
+        print("refusing: %s has uncommitted changes:\n" % target + dirty)
         return 2
     patch = os.path.join(d, "patch.diff")
-    r = sh("git -C %s apply %s %s" % (REPO, "-R" if a.reverse else "", patch))
+    r = sh("git -C %s apply %s %s" % (target, "-R" if a.reverse else "", patch))
     if r.returncode != 0:
         print("patch does not apply:", r.stderr)
         return 2
@@ -45,12 +54,19 @@ def main():
                 cmd = "%s %s/dst/check.py %s --tier quick" % (sys.executable, VERIF, c)
                 if a.n:
                     cmd += " --n %d" % a.n
-                cp = sh(cmd, env=dict(os.environ, VERIF_SEED=seed), cwd=VERIF)
+                env = dict(os.environ, VERIF_SEED=seed)
+                if a.scratch:
+                    env["VERIF_REPO"] = target
+                cp = sh(cmd, env=env, cwd=VERIF)
                 lines = [l for l in cp.stdout.splitlines() if l.startswith("VIOLATION") or l.startswith("  R") or l.startswith("  H")]
                 results["%s@%s" % (c, seed)] = {"exit": cp.returncode, "wall_s": round(time.time() - t0, 1), "lines": lines[:8]}
                 print(c, "seed", seed, "exit", cp.returncode, lines[:4])
     finally:
-        sh("git -C %s checkout -- ." % REPO)
+        if a.scratch:
+            sh("git -C %s worktree remove --force %s" % (REPO, target))
+            sh("git -C %s worktree prune" % REPO)
+        else:
+            sh("git -C %s checkout -- ." % REPO)
     detected = sorted({k.split("@")[0] for k, v in results.items() if v["exit"] == 1})
     out = {"id": a.id, "property": meta["property"], "detected_by": detected, "runs": results,
            "repo_head": sh("git -C %s rev-parse --short HEAD" % REPO).stdout.strip()}
